@@ -168,5 +168,9 @@ uv, ui = np.unique(ug, return_inverse=True)
 tbl = np.array([10.0, 20.0, 30.0])
 check("A30 numpy.unique(x, return_inverse=True): table[inverse].reshape(x.shape) looks every cell's value up in a per-value table, cell by cell",
       np.array_equal(tbl[ui].reshape(ug.shape), np.array([[30.0, 10.0, 30.0], [20.0, 10.0, 20.0]])) and np.array_equal(uv[ui].reshape(ug.shape), ug))
+cz = ma.array(np.array([3.0, 1.0, 2.0]))
+cm = ma.array(np.array([3.0, 1.0, 2.0]), mask=[False, False, False])
+check("A31 compressed() of an array without a mask array is a view of its data (an in-place sort reorders the source); with a mask array it is a copy",
+      np.shares_memory(cz.compressed(), cz.data) and not np.shares_memory(cm.compressed(), cm.data))
 print("%d axiom check(s) failed" % len(FAIL))
 sys.exit(1 if FAIL else 0)
